@@ -29,6 +29,8 @@ type bTreeContainers struct {
 func newBTreeContainers() *bTreeContainers {
 	return &bTreeContainers{
 		tree: treeNew(),
+		// no key has been looked up yet (see Reset)
+		lastKey: ^uint64(0),
 	}
 }
 
@@ -95,6 +97,16 @@ type updater struct {
 func (btc *bTreeContainers) PutContainerValues(key uint64, typ byte, n int, mapped bool) {
 	a := updater{key, int32(n), typ, mapped}
 	btc.tree.Put(key, a.update)
+	btc.invalidateLast(key)
+}
+
+// invalidateLast drops the lookaside entry for key after the tree was
+// changed without going through Put.
+func (btc *bTreeContainers) invalidateLast(key uint64) {
+	if key == btc.lastKey {
+		btc.lastKey = ^uint64(0)
+		btc.lastContainer = nil
+	}
 }
 
 func (btc *bTreeContainers) Remove(key uint64) {
@@ -219,6 +231,7 @@ func (btc *bTreeContainers) Repair() {
 // replace the given container.
 func (btc *bTreeContainers) Update(key uint64, fn func(*Container, bool) (*Container, bool)) {
 	btc.tree.Put(key, fn)
+	btc.invalidateLast(key)
 }
 
 // UpdateEvery calls fn (existing-container, existed), and expects
@@ -229,6 +242,7 @@ func (btc *bTreeContainers) UpdateEvery(fn func(uint64, *Container, bool) (*Cont
 	// currently not handling the error from this, but in practice it has
 	// to be io.EOF.
 	_ = e.Every(fn)
+	btc.invalidateLast(btc.lastKey)
 }
 
 type btcIterator struct {
